@@ -1,16 +1,19 @@
 from propcommon import COMMON_MODELLED
 PROP = dict(
     gotest="TestC08",
-    model="coq/Models/LevLedger.v on coq/Models/SumLedger.v (pool total / positions / shares committed at position addresses / open counter)",
-    coq_deps=["Base/", "Models/SumLedger.v", "Proofs/SumLedgerProofs.v", "Models/LevLedger.v", "Proofs/LevLedgerProofs.v", "Run/LevLedgerRun.v", "Props/C08.v"],
-    rule="the shared ledger histories (see C01) with leveraged-LP opens (leverage 1.5-10, stop-loss set or not), consolidating re-opens, owner closes (1 unit .. all, "
+    model="coq/Models/LevLedger.v on coq/Models/SumLedger.v (pool total / positions / shares committed at position addresses / open counter), lifted to several pools with one "
+          "module-wide counter by coq/Models/LevLedgerMulti.v",
+    coq_deps=["Base/", "Models/SumLedger.v", "Proofs/SumLedgerProofs.v", "Models/LevLedger.v", "Proofs/LevLedgerProofs.v", "Run/LevLedgerRun.v",
+              "Models/LevLedgerMulti.v", "Proofs/LevLedgerMultiProofs.v", "Run/LevLedgerMultiRun.v", "Props/C08.v"],
+    rule="two of three histories run on a market with TWO leverage-enabled oracle pools (uusdc/uatom and uusdc/aweth: 18 decimals, price 2000; same owners on both, batches listing "
+         "positions of both, only one asset's price moving); the shared ledger histories (see C01) with leveraged-LP opens (leverage 1.5-10, stop-loss set or not), consolidating re-opens, owner closes (1 unit .. all, "
          "non-owner attempts), third-party MsgClosePositions (liquidate / stop-loss) and begin-block sweeps under oracle price moves and long block gaps; every step's position "
-         "changes are replayed through the Coq machine and pool total, counter, each position's amount and the shares committed at its address compared; "
+         "changes are replayed through the Coq machine of the position's pool and EVERY pool's total, the module counter, each position's pool, amount and the shares committed at its address compared; "
          "non-trivial = at least one successful tx",
     trusted_base=["position changes are read from the position store before/after each step (LOpen/LClose amounts are implementation-resolved)"],
     modelled="leveragelp bookkeeping as a sum-ledger machine; health, prices, interest and repayment amounts are not part of this property's model; " + COMMON_MODELLED,
-    level_text="Theorems (Coq, closed): for EVERY history of opens/closes/liquidations with any positive amounts, pool total = sum of stored positions, counter = number of "
-               "stored positions, each position's amount = shares committed at its address, nothing left behind after a full close (induction over the history); the pre-fix "
+    level_text="Theorems (Coq, closed): for EVERY history of opens/closes/liquidations with any positive amounts on any number of pools, each pool's total = sum of ITS stored positions, "
+               "the module counter = number of stored positions of all pools, operations on one pool leave the others untouched, each position's amount = shares committed at its address, nothing left behind after a full close (induction over the history); the pre-fix "
                "swallowed partial close is refuted. Tied to the code by replaying every step's observed position changes of generated histories on the real app and "
                "diffing totals/counter/commitments; the property's predicate is also evaluated directly on the keepers' state after every tx and block.",
     level_note="Trusted: Coq kernel+VM; the Go harness. Each close item is atomic (cache context) since fix: commit f605879.",
